@@ -11,6 +11,7 @@ mod state;
 mod timer;
 mod ringbuf;
 mod dlist;
+mod pheap;
 
 use crate::core::*;
 use std::io::{BufRead, Write};
@@ -46,6 +47,7 @@ fn make(prim: &str, flavour: &str, cfg: &[u64]) -> Option<Box<dyn Exec>> {
         ("timer", "sync") => Box::new(timer::SyncTimerExec::<Sync>::new(cfg)),
         ("ringbuf", _) => return ringbuf::make(cfg),
         ("dlist", _) => Box::new(dlist::DListExec::new(cfg)),
+        ("pheap", _) => Box::new(pheap::PHeapExec::new(cfg)),
         _ => return None,
     })
 }
